@@ -271,6 +271,26 @@ def part_traj(args):
                             ry = bytes(d[3 + 2 * n + 2 * pos:5 + 2 * n + 2 * pos])
                     except Exception as e:  # noqa
                         rs = ry = e
+                    # each axis alone as well (an overflow on one axis must not hide behind another): x, y, z elements
+                    for axis in range(3):
+                        els = [[], [], []]
+                        els[axis] = list(ex)
+                        try:
+                            d1 = CompressedSegment(0.5, els[0], els[1], els[2], []).pack()
+                            r1 = bytes(d1[3 + 2 * pos:5 + 2 * pos]) if len(d1) == 3 + 2 * n and d1[0] == (_t(n) << (2 * axis)) \
+                                else ValueError('segment header/length wrong: %s' % bytes(d1).hex())
+                        except Exception as e:  # noqa
+                            r1 = e
+                        p.case(key=('seg1', axis, n, pos, k), outcome=(isinstance(r1, Exception), n, 'axis'))
+                        _check_i16(p, 'spatial', m * 1000.0, r1, {'part': 'traj', 'kind': 'seg-axis', 'axis': axis, 'n': n, 'pos': pos, 'k': k})
+                    try:
+                        d2 = CompressedSegment(0.5, [], [], [], list(eyaw)).pack()
+                        r2 = bytes(d2[3 + 2 * pos:5 + 2 * pos]) if len(d2) == 3 + 2 * n and d2[0] == (_t(n) << 6) \
+                            else ValueError('segment header/length wrong: %s' % bytes(d2).hex())
+                    except Exception as e:  # noqa
+                        r2 = e
+                    p.case(key=('seg1', 'yaw', n, pos, k), outcome=(isinstance(r2, Exception), n, 'yaw'))
+                    _check_i16(p, 'yaw', math.degrees(a) * 10.0, r2, {'part': 'traj', 'kind': 'seg-yaw', 'n': n, 'pos': pos, 'k': k})
                     p.case(key=('seg', n, pos, k), outcome=(isinstance(rs, Exception), n))
                     if isinstance(rs, Exception) and -32768 <= k <= 32767 and abs(math.degrees(a) * 10) <= 32767:
                         p.violation('traj:segment:raises_in_range', 'segment element n=%d pos=%d value %r raised %r'
